@@ -40,7 +40,7 @@ TECHNIQUE = (
 RULE = (
     "full product of model class {EOF, SparsePCA, POP, CPCCA, MCA, EOFRotator, MCARotator, multi.CCA} x container {DataArray, Dataset, list} "
     "x configuration {plain, check_nans=False; thorough: + standardize&coslat, PCA pre-reduction} x entry point {ctor+fit, fit, transform (X / Y), predict, inverse_transform, rotator ctor+fit, "
-    "rotator.fit} x every applicable fault: wrong type (ndarray, list of ndarrays, None); sample dim unknown / partly unknown / empty / of wrong type / "
+    "rotator.fit; every entry point with a `normalized` switch also with normalized=True} x every applicable fault: wrong type (ndarray, list of ndarrays, None); sample dim unknown / partly unknown / empty / of wrong type / "
     "equal to all dims (no feature dim left); each dimension of each item dropped (isel with and without scalar coordinate, mean), renamed, one added; "
     "each feature coordinate shifted (disjoint, overlapping) and replaced by re-ordered different values; Dataset variable dropped / renamed / stripped "
     "of one dim; list length -1 / +1; n_modes in {0, -1, rank+1, 'three', 2.5, None}; alpha < 0 (scalar and one of a pair); unknown solver; score arrays "
@@ -59,7 +59,7 @@ ASSUMPTIONS = [
     "(rotators, SparsePCA, POP) and for MCA, which is CPCCA(alpha=1); the thorough tier is the full product",
     "a fault applied to a call whose un-mutated form already raises decides nothing and is reported as skipped, never as a pass",
 ]
-TALLY_KEYS = ("model", "container", "entry", "fault")
+TALLY_KEYS = ("model", "container", "entry", "fault", "normalized")
 TRUSTED = ["statsmodels import shim (/verif/shims) so that xeofs.cross constructors can be called"]
 
 N_FIT = 10
@@ -332,14 +332,36 @@ def cases(tier, seed):
                             add(model, cont, conf, "inverse_transform", f, field="X")
                         for f in SCORE_CONTROLS:
                             add(model, cont, conf, "inverse_transform!valid", f, field="X")
+    # ---------------- the `normalized` switch: every entry point that has one is enumerated a second time with
+    # normalized=True (scores are multiplied / divided by the stored norms BEFORE the algorithm's own label lookup,
+    # a different code path for mode-label and mode-dimension faults); entries without the switch are not repeated
+    for c in list(out):
+        if c["conf"] == "plain" and _has_normalized(c["model"], c["entry"].split("!")[0]):
+            out.append(dict(c, normalized=True))
     if tier == "quick":
         out = [c for c in out if _in_quick(c)]
     out.sort(key=_simplicity)
     return out
 
 
+def _has_normalized(model, entry):
+    if entry in ("transform", "inverse_transform"):
+        return model in SINGLE or model == "EOFRotator"  # BaseModelSingleSet.transform / inverse_transform
+    if entry in ("transform_X", "transform_Y"):
+        return model in CROSS or model == "MCARotator"  # cross-set transform; cross-set inverse_transform has no switch
+    return False
+
+
+_QUICK_NORMALIZED_DATA = {("wrong_type", "ndarray"), ("drop_feature_dim", "isel_drop"), ("shift_feature_coord", "disjoint"), ("list_length", "plus")}
+
+
 def _in_quick(c):
     """Quick tier: every fault kind on every entry point and container; expensive classes carry a thinner set of variants."""
+    if c.get("normalized"):
+        if c["entry"].startswith("inverse_transform"):  # every score fault and control; all containers for EOF, da for the others
+            return c["model"] == "EOF" or c["container"] == "da"
+        # data-argument entries: these faults are refused before the switch is looked at; one variant per kind, DataArray only
+        return c["container"] == "da" and (c["fault"], c.get("how")) in _QUICK_NORMALIZED_DATA and c.get("dim") in (None, "lat", "time")
     heavy = c["model"] in ("MCARotator", "EOFRotator", "SparsePCA", "POP", "MCA")  # MCA = CPCCA(alpha=1): same code paths
     if heavy:
         if c.get("how") in ("isel_keep", "len1", "overlap", "list_of_ndarrays", "empty_list", "empty_string", "partly_unknown", "all_beyond"):
@@ -362,8 +384,10 @@ def _in_quick(c):
         return False
     if c["model"] == "EOFRotator" and c["container"] != "da" and c["entry"].startswith("inverse_transform"):
         return False
-    if c["model"] in ("MCA", "CPCCA") and c["entry"] == "predict" and c["container"] == "ds":
-        return False
+    if c["model"] in ("MCA", "CPCCA") and c["entry"] == "predict" and c["container"] != "da":
+        return False  # predict preprocesses X exactly as transform(X=...) does
+    if c["entry"] == "transform_Y" and c["container"] != "da":
+        return False  # in the quick tier Y is a DataArray whatever the container of X: the X container does not reach this path
     return True
 
 
@@ -469,6 +493,7 @@ class Call:
             if cont == "list":  # a view is one DataArray/Dataset/list handled by one Preprocessor
                 pass
         self.rot_model_arg = "fitted"
+        self.normalized = bool(case.get("normalized", False))  # part of the valid call, not a fault
         self.kfit = None
         self.m = None  # the fitted (rotated) object, once prepared
         # CPCCARotator.transform re-indexes its result to the training sample labels (a C05 matter): with unseen labels the
@@ -527,14 +552,15 @@ class Call:
         e = self.entry
         if e in ("ctor_fit", "fit", "rotator_fit"):
             return m.scores()
+        nk = dict(normalized=True) if self.normalized else {}  # the default path is called exactly as before
         if e == "transform":
             if self.kind == "multi":
                 return m.transform(self.args["views"])
-            return m.transform(self.args["X"])
+            return m.transform(self.args["X"], **nk)
         if e == "transform_X":
-            return m.transform(X=self.args["X"])
+            return m.transform(X=self.args["X"], **nk)
         if e == "transform_Y":
-            return m.transform(Y=self.args["Y"])
+            return m.transform(Y=self.args["Y"], **nk)
         if e == "predict":
             return m.predict(self.args["X"])
         if e == "inverse_transform":
@@ -543,7 +569,7 @@ class Call:
                 self.kfit = int((sc[0] if isinstance(sc, (list, tuple)) else sc).sizes["mode"])
             if self.kind == "cross":
                 return m.inverse_transform(X=self.args["X"], Y=self.args["Y"])
-            return m.inverse_transform(self.args["scores"])
+            return m.inverse_transform(self.args["scores"], **nk)
         raise ValueError(e)
 
 
@@ -861,6 +887,8 @@ def _run_case(case, seed):
     feats = dict(fault=case["fault"], entry=entry)
     if case["fault"] == "n_modes":
         feats["value"] = case["how"]
+    if case.get("normalized"):
+        feats["normalized"] = True
 
     # 1. the un-mutated call must succeed, else the case is vacuous
     base = Call(case, seed)
@@ -906,7 +934,7 @@ def _run_case(case, seed):
     if what == "raised":
         return dict(violations=[], outcome="rejected:%s" % type(obs).__name__, nontrivial=True, info=dict(exc=type(obs).__name__, at=_where(obs), baseline=base_desc))
     desc, n, nf = obs
-    detail = {k: v for k, v in case.items() if k not in ("model", "container", "conf", "entry", "fault")}  # incl. solver
+    detail = {k: v for k, v in case.items() if k not in ("model", "container", "conf", "entry", "fault")}  # incl. solver, normalized
     v = viol(
         "fault_accepted",
         case["model"],
